@@ -435,6 +435,7 @@ func SafeCheck[C any](s *Sub[C], c C) (err error) {
 		AbortCase(s, c, Errf("the case did not return within %v (cases of this sub-check take milliseconds to seconds): the code under test does not terminate on it, or takes orders of magnitude longer than on its neighbours", limit))
 	})
 	defer disarm()
+	currentCase = func() []byte { b, _ := json.Marshal(c); return b }
 	err = s.Check(c)
 	if err == nil {
 		if herr := verifyHeld(); herr != nil {
@@ -472,13 +473,21 @@ func Hold(what string, verify func() error) {
 	if len(held.list) >= 6 {
 		held.list = held.list[1:]
 	}
-	held.list = append(held.list, heldResult{what, verify})
+	var raw []byte
+	if currentCase != nil {
+		raw = currentCase() // the case that obtained the result: it goes into the replay file of a later failure
+	}
+	held.list = append(held.list, heldResult{what, verify, raw})
 	held.registered++
 }
+
+// currentCase renders the case SafeCheck is evaluating (set by SafeCheck; one case at a time per process).
+var currentCase func() []byte
 
 type heldResult struct {
 	what   string
 	verify func() error
+	raw    []byte
 }
 
 var held struct {
@@ -508,6 +517,17 @@ func verifyHeld() error {
 			held.mu.Lock()
 			held.list = nil
 			held.mu.Unlock()
+			if len(h.raw) > 0 && len(h.raw) <= 4*recentMaxBytes { // the holder precedes the current case in the replay file
+				recent.mu.Lock()
+				known := false
+				for _, p := range recent.cases {
+					known = known || bytes.Equal(p, h.raw)
+				}
+				if !known {
+					recent.cases = append([][]byte{h.raw}, recent.cases...)
+				}
+				recent.mu.Unlock()
+			}
 			return Errf("a result handed out to an earlier case and still held (%s) is no longer what it was, now that this case has run: %v", h.what, err)
 		}
 	}
